@@ -1,7 +1,7 @@
 (** C09 — the normal form is a fixpoint, the same via JSON and YAML, and deterministic. *)
 From Coq Require Import String List Ascii Bool Arith ZArith Permutation.
-From GP Require Import Base.Sexp Model.Gv Model.Pipeline Model.Marshal Model.Reparse
-     Proofs.MarshalProofs Proofs.DeterminismProofs Proofs.ReparseProofs.
+From GP Require Import Base.Sexp Model.Gv Model.Pipeline Model.Marshal Model.Reparse Model.MarshalYaml
+     Proofs.MarshalProofs Proofs.DeterminismProofs Proofs.ReparseProofs Proofs.YamlLegProofs.
 Import ListNotations.
 Local Open Scope string_scope.
 
@@ -61,6 +61,31 @@ Theorem parse_marshal_reparse : forall g p w,
   exists p' w', reparse_json p = Ok p' w' /\ mj_pipeline p' = mj_pipeline p.
 Proof. exact ReparseProofs.parse_marshal_reparse. Qed.
 
+(** FIXPOINT (YAML leg): Parse(yaml.Marshal(p)) marshals like p. [yaml_side_ok] collects what the YAML
+    leg needs beyond the JSON leg: coherent float tokens in free-form values, and three nil-versus-empty
+    classes in which yaml.v3 and encoding/json spell "nothing" differently (a signature without
+    signed_fields: null / []; an empty top-level env: {} / omitted; an empty Go map as skip) - each kept
+    as a counterexample by computation in Proofs/YamlLegProofs.v; the harness oracle identifies nil and
+    empty at exactly those positions *)
+Theorem reparse_yaml_fixpoint : forall p, pipeline_fix_ok p -> yaml_side_ok p ->
+  exists p' w', reparse_yaml p = Ok p' w' /\ mj_pipeline p' = mj_pipeline p.
+Proof. exact YamlLegProofs.reparse_yaml_fixpoint. Qed.
+(** BOTH FORMATS CARRY THE SAME DATA: the two re-parses marshal identically *)
+Theorem yaml_json_legs_agree : forall p, pipeline_fix_ok p -> yaml_side_ok p ->
+  exists pj wj py wy, reparse_json p = Ok pj wj /\ reparse_yaml p = Ok py wy /\ mj_pipeline py = mj_pipeline pj.
+Proof. exact YamlLegProofs.yaml_json_legs_agree. Qed.
+(** ... for everything Parse returns (outside the named classes), and the YAML encoder does not panic there *)
+Theorem parse_marshal_reparse_yaml : forall g p w,
+  parse_doc g = Ok p w -> doc_ok g ->
+  no_empty_primary_with_alias p -> plugin_sources_canonical p -> no_fallback_unknown p ->
+  float_tokens_coherent g -> signatures_list_fields p -> env_not_empty p ->
+  exists pj wj py wy, reparse_json p = Ok pj wj /\ reparse_yaml p = Ok py wy /\
+                      mj_pipeline py = mj_pipeline p /\ mj_pipeline pj = mj_pipeline p.
+Proof. exact YamlLegProofs.parse_marshal_reparse_yaml. Qed.
+Theorem fix_ok_marshals_yaml : forall p, pipeline_fix_ok p -> yaml_side_ok p ->
+  marshal_yaml p = Some (my_pipeline p).
+Proof. exact YamlLegProofs.fix_ok_marshals_yaml. Qed.
+
 (** every Marshal shape is accepted by the matching UnmarshalOrdered (the stand-alone decoders included) *)
 Theorem sig_roundtrip : forall s, unm_sig (gv_of_json (mj_sig s)) = Ok (Some s) 0.
 Proof. exact ReparseProofs.sig_roundtrip. Qed.
@@ -99,3 +124,7 @@ Print Assumptions plugins_roundtrip.
 Print Assumptions command_roundtrip.
 Print Assumptions step_roundtrip.
 Print Assumptions gv_json_of_json.
+Print Assumptions reparse_yaml_fixpoint.
+Print Assumptions yaml_json_legs_agree.
+Print Assumptions parse_marshal_reparse_yaml.
+Print Assumptions fix_ok_marshals_yaml.
